@@ -3,7 +3,7 @@
 From Coq Require Import List String Ascii Bool ZArith.
 From Helm Require Import Chart.Paths Chart.PathsProofs Chart.Archive Chart.ArchiveProofs
   Chart.Lock Chart.LockProofs Chart.PathFns Chart.PathFnsProofs Chart.FsTree Chart.FsTreeProofs
-  Chart.FsLockProofs Chart.FsExplicit Gen.Limits.
+  Chart.FsLockProofs Chart.FsExplicit Gen.Limits Gen.SecureJoinLib.
 Import ListNotations.
 Local Open Scope string_scope.
 Local Open Scope Z_scope.
@@ -287,6 +287,14 @@ Theorem C16_securejoin_confined :
               (forall q, (exists r, out = (q ++ r)%list) -> forall tg, tget t q <> Some (TLink tg)).
 Proof. exact secure_join_confined_x. Qed.
 Print Assumptions C16_securejoin_confined.
+
+(* the SecureJoinVFS the model transcribes is the one of the library version /repo/go.mod
+   requires: same link limit, same declaration text (fingerprint computed by the translator
+   from the module source on every run) *)
+Theorem C16_securejoin_source :
+  sj_lib_max_symlinks = Z.of_nat sj_max_links /\ sj_lib_join_sha256 = sj_transcribed_sha256.
+Proof. exact securejoin_source. Qed.
+Print Assumptions C16_securejoin_source.
 
 (* ... so the kernel resolves the result to itself, following the last component or not *)
 Theorem C16_securejoin_resolves :
